@@ -435,6 +435,13 @@ const HAND: &[(&str, &[u8])] = &[
 	("hand.utf16le_nonascii", b"k\x00:\x00 \x00\xe9\x00\xac\x20\n\x00"),
 	("hand.utf32le_bom", b"\xff\xfe\x00\x00a\x00\x00\x00:\x00\x00\x00 \x00\x00\x001\x00\x00\x00\n\x00\x00\x00"),
 	("hand.utf32be_nonascii", b"\x00\x00\x00-\x00\x00\x00 \x00\x00\x20\xac\x00\x00\x00\n"),
+	// YAML line breaks other than LF, with an indented implicit first document
+	("hand.yaml_cr_indented", b"# c\r  a: 1\r  b: 2\r"),
+	("hand.yaml_cr_indented", b"# c\r  - a\r  - b\r"),
+	("hand.yaml_nel_indented", b"# c\xc2\x85  a: 1\xc2\x85  b: 2\xc2\x85"),
+	("hand.yaml_ls_indented", b"# c\xe2\x80\xa8  a: 1\xe2\x80\xa8  b: 2\xe2\x80\xa8"),
+	("hand.yaml_crlf_indented", b"# c\r\n  a: 1\r\n  b: 2\r\n"),
+	("hand.yaml_lf_indented", b"# c\n  a: 1\n  b: 2\n"),
 	// TOML that is also the start of something else
 	("hand.toml_table_header", b"[package]\n"),
 	("hand.toml_table_header", b"[[bin]]\n"),
